@@ -24,7 +24,33 @@ import cdd.docstring.utils.parse_utils as _pu  # noqa: E402
 import cdd.shared.ast_utils as _au  # noqa: E402
 import cdd.shared.docstring_utils as _du  # noqa: E402
 
-MODS = (_emit, _du, _pu, _au)
+def _modules_with_while():
+    """every non-test module of the CURRENT tree whose source contains a `while` statement (so a loop added anywhere gets fuel)"""
+    import glob
+    import importlib
+
+    mods = [_emit, _du, _pu, _au]
+    for fn in sorted(glob.glob(_REPO + "/cdd/**/*.py", recursive=True)):
+        rel = fn[len(_REPO) + 1:-3]
+        if "/tests/" in fn or rel.endswith("__main__") or rel.endswith("setup"):
+            continue
+        try:
+            with open(fn) as f:
+                tree = ast.parse(f.read())
+        except (OSError, SyntaxError):
+            continue
+        if not any(isinstance(n, ast.While) for n in ast.walk(tree)):
+            continue
+        try:
+            m = importlib.import_module(rel[:-len("/__init__")].replace("/", ".") if rel.endswith("/__init__") else rel.replace("/", "."))
+        except Exception:  # pragma: no cover - a module that does not import cannot be called either
+            continue
+        if m not in mods:
+            mods.append(m)
+    return tuple(mods)
+
+
+MODS = _modules_with_while()
 SITES = []
 for _m in MODS:
     SITES += instrument_fuel(_m)
@@ -40,7 +66,7 @@ def _unbounded_for_sites():
     bad = []
     files = [m.__file__ for m in MODS] + [
         _REPO + "/cdd/shared/docstring_parsers.py", _REPO + "/cdd/shared/defaults_utils.py", _REPO + "/cdd/shared/cst_utils.py"]
-    for fn in files:
+    for fn in dict.fromkeys(files):
         tree = ast.parse(open(fn).read())
         for n in ast.walk(tree):
             if isinstance(n, ast.For) and isinstance(n.iter, ast.Name):
@@ -257,3 +283,98 @@ for _pre, _suf, _tag in (("", "", "raw"), ("x or ", ".", "or"), ("List of ", "",
                   "cdd.docstring.utils.parse_utils._parse_adhoc_doc_for_typ_phase0"],
            assumes=[ADHOC_SHIMS_DOC],
            bound="description %r + ANY %d code points + %r" % (_pre, _n, _suf))(_adhoc(_pre, _n, _suf))
+
+
+# ---------------------------------------------------------------------------------- damaged TYPE text
+#: finite alphabet for holes inside a type: CPython's parser (ast.parse inside needs_quoting / ast_parse_fix) is a C boundary
+#: that realises the text, so the hole ranges over the characters that matter to bracket / quote / separator handling
+TSIGMA = "][)(,.|'\" *aZ0_-:`\n"
+TYPES = ("int", "Optional[int]", "List[int]", "Union[int, str]")
+
+
+def _tpert(t, pos, c0, c1):
+    """the type `t` with 1-2 characters of TSIGMA inserted at `pos` (left / middle / right), or with its ends cut (c1 == len(TSIGMA))"""
+    h = TSIGMA[0]
+    for j in range(1, len(TSIGMA)):
+        if c0 == j:
+            h = TSIGMA[j]
+    g = ""
+    for j in range(len(TSIGMA)):
+        if c1 == j:
+            g = TSIGMA[j]
+    h = h + g
+    if pos == 0:
+        return h + t
+    if pos == 1:
+        return t[:len(t) // 2] + h + t[len(t) // 2:]
+    if pos == 2:
+        return t + h
+    if pos == 3:
+        return t[1:] + h  # cut on the left
+    return h + t[:-1]  # cut on the right
+
+
+def _typehole_parse(t):
+    def body(style, pos, c0, c1, dflt):
+        import cdd.shared.docstring_parsers as dp
+
+        ty = _tpert(t, pos, c0, c1)
+        tail = (". Defaults to 5" if dflt else "")
+        d = ":param a: the a%s\n:type a: ```%s```\n" % (tail, "%s")
+        if style == 1:
+            d = "Head.\n\nArgs:\n  a (%s): the a" + tail + "\n"
+        if style == 2:
+            d = "Head.\n\nParameters\n----------\na : %s\n    the a" + tail + "\n"
+        i = d.index("%s")
+        d = d[:i] + ty + d[i + 2:]
+        from crosshair.tracers import NoTracing
+
+        with NoTracing():  # solver-enumerated: the text is concrete on every path (finite alphabet), the parser runs untraced
+            d = str(d)
+            for edd in (False, True):
+                r = fueled(len(d), lambda: dp.parse_docstring(d, emit_default_doc=edd))
+                if r:
+                    return r
+        return ""
+
+    return body
+
+
+def _typehole_emit(t):
+    def body(fmt, pos, c0, c1, dkind):
+        from harness.c10 import HIST_FORMATS, _hist_convert, _pick
+
+        ty = _tpert(t, pos, c0, c1)
+        p = {"typ": ty, "doc": "the a"}
+        if dkind == 1:
+            p["default"] = 5
+        elif dkind == 2:
+            p["default"] = "five"
+        f = _pick(HIST_FORMATS, fmt)
+        from crosshair.tracers import NoTracing
+
+        with NoTracing():
+            p["typ"] = str(ty)
+            ir = {"name": "C", "doc": "Header line.", "type": "static", "params": OrderedDict((("id", {"typ": "int", "doc": "[PK] the id"}), ("a", p))), "returns": None}
+            return fueled(len(ty) + 64, lambda: _hist_convert(f, ir), ok_exc=(Exception,))
+
+    return body
+
+
+for _t in TYPES:
+    _tag = "".join(ch for ch in _t if ch.isalnum())
+    for _tier, _c1 in (("quick", R(len(TSIGMA), len(TSIGMA))), ("thorough", R(0, len(TSIGMA) - 1))):
+        _sfx = "" if _tier == "quick" else ".two"
+        _nh = "1 character" if _tier == "quick" else "2 characters"
+        ob("C11", "typehole.parse.%s%s" % (_tag, _sfx), {"style": R(0, 2), "pos": R(0, 4), "c0": R(0, len(TSIGMA) - 1), "c1": _c1, "dflt": BOOL}, tier=_tier,
+           T=1500, tpath=60, funcs=["cdd.shared.docstring_parsers.parse_docstring", "cdd.shared.defaults_utils.needs_quoting", "cdd.shared.defaults_utils.ast_parse_fix",
+                                    "cdd.shared.defaults_utils.extract_default"],
+           assumes=["SOLVER-ENUMERATED over a finite alphabet: once a path has fixed the hole the parser runs untraced, fuel-instrumented"],
+           bound="ReST / Google / NumPy docstring whose parameter type is %r with %s of %r inserted on the left / in the middle / on the right or replacing its first / "
+                 "last character, with and without 'Defaults to 5' (the default is what makes the parser inspect the type)" % (_t, _nh, TSIGMA))(_typehole_parse(_t))
+        ob("C11", "typehole.emit.%s%s" % (_tag, _sfx), {"fmt": R(0, 8), "pos": R(0, 4), "c0": R(0, len(TSIGMA) - 1), "c1": _c1, "dkind": R(0, 2)}, tier=_tier,
+           T=1500, tpath=60, funcs=["cdd.class_.emit.class_", "cdd.function.emit.function", "cdd.argparse_function.emit.argparse_function", "cdd.pydantic.emit.pydantic",
+                                    "cdd.json_schema.emit.json_schema", "cdd.docstring.emit.docstring", "cdd.sqlalchemy.emit.*", "cdd.shared.ast_utils.param2ast",
+                                    "cdd.shared.defaults_utils.needs_quoting", "cdd.shared.defaults_utils.ast_parse_fix"],
+           assumes=["SOLVER-ENUMERATED over a finite alphabet: once a path has fixed the hole the emitter and parser run untraced, fuel-instrumented"],
+           bound="emit (then parse back) into each of 9 formats an IR whose parameter type is %r damaged the same way (%s), with no / int / str default" % (_t, _nh))(_typehole_emit(_t))
